@@ -171,3 +171,32 @@ func ZZC17Twin() {
 	ss, _ := s.doSign(zzSnapshot(1))
 	rt.Assert(len(ss.Signature) == 0, "twin")
 }
+
+// ZZC17Shared: the batchers run concurrently on copies of the Sender (value receiver);
+// signing a snapshot in one must not write memory that signing in another also writes.
+func ZZC17Shared() {
+	a := gossip.ZZNewAgentWithBus()
+	s := NewSenderWithLogger(a, zzSigner{}, 2, 2, 2, log.L())
+	c1, c2 := *s, *s // what `go s.batcher(i, ch)` gives each goroutine
+	rt.SharedWrites(func() { c1.doSign(zzSnapshot(1)) }, func() { c2.doSign(zzSnapshot(2)) }, "sender-batchers")
+}
+
+// ZZC17SharedRace is the native witness for a lockset finding of ZZC17Shared
+// (meaningful in a -race build): two batchers of one sender sign concurrently.
+func ZZC17SharedRace() {
+	a := gossip.ZZNewAgentWithBus()
+	sub := &zzSub{}
+	a.Out.Subscribe(gossip.BatchMessageType, sub, 4096)
+	s := NewSenderWithLogger(a, zzSigner{}, 2, 2, 2, log.L())
+	s.Interval = 5 * time.Millisecond
+	ch := make(chan *protocol.Snapshot, 4096)
+	s.Start(ch)
+	for i := 0; i < 2000; i++ {
+		ch <- zzSnapshot(i % 200)
+	}
+	for i := 0; i < 400 && len(ch) > 0; i++ {
+		time.Sleep(5 * time.Millisecond)
+	}
+	time.Sleep(50 * time.Millisecond)
+	s.Stop()
+}
